@@ -376,8 +376,10 @@ def run(REG, tier, seed, jobs):
                   'evaluations': ev, 'distinct_nontrivial': nt, 'rule': 'every file', 'exhaustive': True, 'failures': fails})
     alpha = ['@', '\\', 'A', 'b', 'N', 'x', '-', ' ', '$', '{', '}']
     n = 5 if tier == 'quick' else 6
-    ev, nt, fails = pmap(_meson_chunk, chunked(strings(alpha, n), 20000), jobs)
-    parts.append({'name': 'C14/bounded/meson-format-vs-single-pass-scanner', 'function': 'do_replacement_meson / get_variable_regex', 'bound': f'all templates of <= {n} symbols over {alpha!r} x {len(CONFS)} configurations (values that look like placeholders included)',
+    # plus: characters that are word characters for Python's re but NOT name characters of a placeholder (only ASCII letters, digits, _ and -)
+    alpha2 = ['@', '\\', 'A', 'é', '日', 'ß', '٣']
+    ev, nt, fails = pmap(_meson_chunk, chunked(itertools.chain(strings(alpha, n), strings(alpha2, 4)), 20000), jobs)
+    parts.append({'name': 'C14/bounded/meson-format-vs-single-pass-scanner', 'function': 'do_replacement_meson / get_variable_regex', 'bound': f'all templates of <= {n} symbols over {alpha!r} and of <= 4 symbols over {alpha2!r} (non-ASCII word characters are not name characters) x {len(CONFS)} configurations (values that look like placeholders included)',
                   'evaluations': ev, 'distinct_nontrivial': nt, 'rule': 'non-trivial: the template contains @', 'exhaustive': True, 'failures': fails})
     lines = ['#mesondefine ' + v for v in ['V', 'W', 'T', 'F', 'X', 'Q']] + ['  #mesondefine V', '#mesondefine', '#mesondefine V W', '#mesondefine V\n', '\t#mesondefine W\r\n']
     cases = [(l, ci) for l in lines for ci in range(len(DCONFS))]
